@@ -259,3 +259,33 @@ for _i, (_feat, _pos, _mode) in enumerate(_WALL):
     ob("C09", "P4.win.%s.%s%03d" % (_feat, _mode, _pos), {"c": CP}, tier="quick" if _i in _WQ else "thorough", T=200, funcs=PFUNCS, assumes=[INFER_STUB],
        bound="window of %d chars from %s:%d (feature %s) with ANY code point %s at offset %d: lossless scan and tiling" % (
            len(_text), _fn, _ln, _feat, "inserted" if _mode == "ins" else "substituted", _pos))(_win(_text, _pos, _mode))
+
+
+# P3: sequences over the LEXICAL alphabet of the property's quantifier (multi-character tokens: triple quotes, 'def ', 'class ', continuations) ----------
+TOKENS = ("\n", "    ", '"', "'", '"""', "'''", "#", "\\", "(", ")", "[", "]", ":", "=", "@", ";", "def ", "class ", "x", " ", "\\\n", "{", "}", ",")
+
+
+def _pick_tok(t):
+    tok = TOKENS[0]
+    for k in range(1, len(TOKENS)):
+        if t == k:
+            tok = TOKENS[k]
+    return tok
+
+
+def _p3(first, k):
+    def body(*ts):
+        s = TOKENS[first]
+        for t in ts:
+            s = s + _pick_tok(t)
+        return lossless(s) or tiles(s)
+
+    body.__name__ = "P3_tok_%d_%d" % (first, k)
+    return body
+
+
+for _first in range(len(TOKENS)):
+    for _k, _tier, _T in ((3, "quick", 600), (4, "thorough", 6000)):
+        ob("C09", "P3.tok.k%d.t%02d" % (_k, _first), {"t%d" % j: R(0, len(TOKENS) - 1) for j in range(1, _k)}, tier=_tier, T=_T, funcs=PFUNCS, assumes=[INFER_STUB],
+           bound="EVERY sequence of %d lexical tokens starting with %r, the others drawn from %r (%d sequences, solver-enumerated): concatenation identity of cst_scanner and cst_parse, line tiling"
+                 % (_k, TOKENS[_first], TOKENS, len(TOKENS) ** (_k - 1)))(_p3(_first, _k))
